@@ -446,6 +446,20 @@ class RustFE:
             if isinstance(v, list):
                 v[last[1]] = val
                 return
+        if last[0] == 'index':
+            tgt = self.deref(v)
+            i = self.cint(L[last[1]])
+            if isinstance(tgt, RBuf):
+                # (*deref_mut(buf))[i] = byte  (the bounds check was asserted just before)
+                if i < 0 or tgt.r + i >= len(tgt.b):
+                    raise RPanic('index out of bounds: the length is %d but the index is %d' % (len(tgt.b) - tgt.r, i))
+                tgt.b[tgt.r + i] = self.bits(val, 8)
+                return
+            if isinstance(tgt, RVec):
+                if i >= len(tgt.items):
+                    raise RPanic('index out of bounds')
+                tgt.items[i] = val
+                return
         raise Unsupported('assignment to ' + lhs)
 
     def make_ref(self, L, s):
@@ -540,8 +554,19 @@ class RustFE:
             if m:
                 return self.cast(self.operand(fn, L, m.group(1)), m.group(2), m.group(3))
             return self.operand(fn, L, r)
-        if r.startswith('&raw '):
+        m = re.match(r'^&raw (?:const|mut) (?:\(fake\) )?(.*)$', r)
+        if m:
+            # the compiler's bounds check of buf[i] takes a raw pointer to the slice only to read its length
+            v = self.read_place(L, m.group(1))
+            if isinstance(self.deref(v), RBuf):
+                return self.deref(v)
             raise Unsupported('raw reference')
+        m = re.match(r'^PtrMetadata\((?:move|copy) (.*)\)$', r)
+        if m:
+            v = self.deref(self.read_place(L, m.group(1)))
+            if isinstance(v, RBuf):
+                return RInt(len(v.b) - v.r, 'usize')
+            raise Unsupported('PtrMetadata of %r' % type(v))
         if r.startswith('&mut '):
             return self.make_ref(L, r[5:])
         if r.startswith('&'):
